@@ -139,10 +139,15 @@ prop("C12", "exploration",
 prop("C15", "exploration",
      "cases = next() calls on the real load balancers for every N in 1..256: RoundRobin k*N calls (counts compared after every N), LeastConnections over seed-generated count vectors "
      "(unique minimum at a random position, ties), SourceAddrHash over IPv4/IPv6+zone/Unix/empty/random-byte addresses and 36 crafted strings whose CRC32 is 0x80000000, 0x7fffffff, "
-     "0xffffffff, 0, 1, 0x80000001 (same string twice => same loop; every result must be a registered loop); rerun as a 32-bit binary. distinct_nontrivial = distinct (policy, N)",
+     "0xffffffff, 0, 1, 0x80000001 (same string twice => same loop; every result must be a registered loop); rerun as a 32-bit binary. End to end on real reactor-mode engines (N in {1,2,3,4,7}, thorough "
+     "up to 32; tcp and unix; LT and ET): connections are made one at a time and the loop on which OnOpen ran is compared with the policy's prediction - RoundRobin: every loop exactly k after k*N accepts "
+     "(with closes in between), LeastConnections: the loop's count in the monitor's own open/close log at the quiescent point before the connect is minimal (closes create vectors an accept-only history "
+     "never has), SourceAddrHash: reconnecting twice from the same bound local address (RST close, SO_REUSEADDR / re-bound Unix path) lands on the same loop; every callback of a connection runs on its "
+     "loop. distinct_nontrivial = distinct (policy, N) and (engine, policy, N, network)",
      [
          {"harness": "lb", "args": {"quick": [], "thorough": []}, "timeout": {"quick": 300, "thorough": 900}},
          {"harness": "lb", "arch": "386", "args": {"quick": [], "thorough": []}, "timeout": {"quick": 300, "thorough": 900}},
+         {"harness": "eng", "flavour": "shim", "args": {"quick": ["--mode", "c15"], "thorough": ["--mode", "c15"]}, "timeout": {"quick": 600, "thorough": 1800}},
      ],
      "Oracle over the package-internal balancers (reached through an injected export file) for all loop counts 1..256; the end-to-end part (the loop a connection is assigned "
      "to is the loop on which its callbacks run) is checked by the engine harness jobs of this property.",
@@ -152,10 +157,14 @@ prop("C15", "exploration",
 prop("C17", "exploration",
      "cases = (IP, port, zone) triples: IPv4 4-byte and 16-byte forms, random/link-local/loopback/unspecified IPv6, ports {0,1,80,255,256,65535,random}, zones {none, every interface "
      "name present, every interface index as a decimal string, numbers without an interface}; NetAddrToSockaddr followed by SockaddrToTCPOrUnixAddr / SockaddrToUDPAddr must return an "
-     "equal IP, port and a well-formed zone with the same scope id; invalid IP lengths and unsupported networks must give nil; Unix paths round-trip. distinct_nontrivial = distinct "
-     "(tcp|udp, address class, zone class) tuples",
+     "equal IP, port and a well-formed zone with the same scope id; invalid IP lengths and unsupported networks must give nil; Unix paths round-trip. End to end: engines listening on 127.0.0.1:fixed, [::1]:fixed, 127.0.0.1:0, "
+     "[::1%lo]:fixed, the machine's link-local address with its zone (when it has one; otherwise recorded as not exercised) and a Unix path serve 120 short connections each whose peers send their own LocalAddr "
+     "in-band; OnOpen, every OnTraffic and OnClose compare RemoteAddr with it and LocalAddr with getsockname of the listener (Engine.Dup), while frames split across reads make the handler take pool slices and a "
+     "goroutine keeps getting, filling and putting small pool slices. distinct_nontrivial = distinct (tcp|udp, address class, zone class) tuples and engine sub-cases",
      [
          {"harness": "addr", "args": {"quick": [], "thorough": []}, "timeout": {"quick": 300, "thorough": 1800}},
+         {"harness": "eng", "flavour": "shim", "args": {"quick": ["--mode", "c17"], "thorough": ["--mode", "c17"]}, "timeout": {"quick": 600, "thorough": 1800}},
+         {"harness": "eng", "flavour": "shim", "race": True, "tiers": ["thorough"], "args": {"thorough": ["--mode", "c17"]}, "timeout": {"thorough": 1800}},
      ],
      "Round-trip oracle over pkg/socket's conversion functions; the truthful-reporting part (RemoteAddr/LocalAddr inside callbacks under churn) is checked by the engine harness jobs "
      "of this property.",
